@@ -16,7 +16,14 @@ P = {'id': 'C10',
               'valvec32_push_capacity',
               'fixed_refines_bounded_deque',
               'fixed_refuses_when_full',
-              'fixed_clear_drops_each_once'],
+              'fixed_clear_drops_each_once',
+              'valvec32_refines_list',
+              'valvec32_exactly_once',
+              'valvec32_clone_same_sequence',
+              'valvec32_clear_drops_each_once',
+              'valvec32_capacity_agrees',
+              'valvec32_set_leak_refuted',
+              'valvec32_extend_truncation_refuted'],
  'trusted': ['modelled (M+S), memory = map slot -> option element (None = uninitialised / moved out; reading, moving out or dropping a None slot is the '
              'outcome UB): src/containers/specialized/circular_queue.rs AutoGrowCircularQueue (ensure_power_of_two, with_capacity, reserve, grow_to incl. '
              'in-place realloc vs. linearising two-part copy, push_back + slow path, pop_front, front, back, clear, push_bulk, pop_bulk, Clone, Drop) and '
